@@ -6,12 +6,17 @@ Section Scripts.
   Variable U : UData.
 
   (* completer: the word starts after the last blank before the cursor; candidates are
-     the scripted entries starting with that word *)
+     the scripted entries starting with that word -- or, when the scripted list begins with
+     the entry "*", all the other entries whatever the word is (candidates need not extend
+     the word: shorter, unrelated, empty) *)
   Definition script_complete (cands : list str) (line : str) (p : nat) : nat * list str :=
     let before := match bsplit line p with Some (l, _) => l | None => line end in
     let start := match rfind_char 32%N before with Some i => i + 1 | None => 0 end in
     let word := match bsplit before start with Some (_, w) => w | None => [] end in
-    (start, filter (fun c => prefix_b word c) cands).
+    (start, match cands with
+            | [42%N] :: rest => rest
+            | _ => filter (fun c => prefix_b word c) cands
+            end).
 
   (* hinter: cursor at the end of a non-empty line; first scripted hint extending it *)
   Definition script_hint (hints : list str) (line : str) (p : nat) : option str :=
